@@ -71,3 +71,25 @@ Lemma parallax_dalpha_tan dec H rc k : 0 < par_A dec H rc k ->
   tan (topo_dalpha dec H rc k)
   = - rc * k * sin (rad H) / (cos (rad dec) - rc * k * cos (rad H)).
 Proof. intro HA. exact (dalpha_tan (rad dec) (rad H) rc k HA). Qed.
+
+(* the hypothesis distance > C covers the whole range of the property: heights up to 9000 m in absolute
+   value and distances from 1e-3 AU: C <= 4.3e-5 *)
+From Interval Require Import Tactic.
+Lemma par_C_small h : Rabs h <= 9000 -> par_C h <= 43 / 1000000.
+Proof.
+  intro Hh. unfold par_C.
+  assert (Hs : 0 < sin (rad pi0_deg) <= 4264 / 100000000).
+  { split; [apply sin_pi0_pos|]. unfold rad, pi0_deg. interval. }
+  assert (Hr : 0 <= Rabs (h / a_wgs) <= 9000 / 6378137).
+  { split; [apply Rabs_pos|]. unfold Rdiv. rewrite Rabs_mult. unfold a_wgs.
+    rewrite (Rabs_right (/ 6378137)) by (apply Rle_ge; left; apply Rinv_0_lt_compat; lra).
+    apply Rmult_le_compat_r; [left; apply Rinv_0_lt_compat; lra | exact Hh]. }
+  assert ((1 + Rabs (h / a_wgs)) * sin (rad pi0_deg) <= (1 + 9000 / 6378137) * (4264 / 100000000))
+    by (apply Rmult_le_compat; lra).
+  lra.
+Qed.
+
+Lemma parallax_range h dist : Rabs h <= 9000 -> 1 / 1000 <= dist -> par_C h < Rabs dist.
+Proof.
+  intros Hh Hd. assert (H := par_C_small h Hh). rewrite Rabs_right by lra. lra.
+Qed.
